@@ -227,7 +227,7 @@ class DefUse:
             if t["k"] == "call":
                 self.defs[plocal(t["d"])].append((i, "call", t))
 
-    def slice_back(self, local, depth=12, through_calls=True):
+    def slice_back(self, local, depth=12, through_calls=True, through_index=True):
         """locals / calls / consts that (transitively) feed `local`.
         returns (locals:set, calls:list[term], ints:set)"""
         seen = set()
@@ -250,7 +250,7 @@ class DefUse:
                             if v is not None:
                                 ints.add(v)
                             # index projections read another local
-                        if op[0] in ("c", "m"):
+                        if op[0] in ("c", "m") and through_index:
                             for pr in pproj(op[1]):
                                 if isinstance(pr, list) and pr[0] == "i":
                                     stack.append((pr[1], d + 1))
